@@ -17,4 +17,5 @@ INVARIANT StoreIsExpected
 INVARIANT NothingLostOrMerged
 INVARIANT PrefixIsExpected
 INVARIANT FoldAgrees
+INVARIANT RedirectsVerbatim
 CHECK_DEADLOCK FALSE
